@@ -205,7 +205,8 @@ bool Instance::setup_environment(unsigned int flags) {
     env->successor_script = successor_script;
     env->pretend_valid_map = pretend_valid_map;
     env->pretend_valid_pubkeys = pretend_valid_pubkeys;
-    env->done &= successor_script.size() == 0;
+    // an empty script is not finished while a scriptPubKey or a taproot commitment check is still pending
+    env->done &= successor_script.size() == 0 && tce == nullptr;
     env->execdata = execdata;
     env->tce = tce;
 
